@@ -157,11 +157,11 @@ def plan(pid, tier, seed, fx):
     elif pid == "C03":
         for f in ("s_plain", "a_plain", "s_yield", "a_yield", "s_lru_unb", "a_lru_unb", "a_lfu_unb"):
             A = [call(f, 1), call(f, 2)]
-            for nt, ml, n in ((2, 2, 40), (3, 1, 8), (3, 2, 400 if thorough else 20), (2, 3, 300 if thorough else 0)):
+            for nt, ml, n in ((2, 2, 40), (3, 1, 8), (3, 2, 120 if thorough else 20), (2, 3, 100 if thorough else 0)):
                 if n == 0:
                     continue
                 jobs.append({"fixtures": [f], "prefix": [], "programs": programs(rng, A, nt, ml, n),
-                             "strategy": {"kind": "dfs", "max_schedules": 3000 if thorough else 120, "preempt": 3 if thorough else 2},
+                             "strategy": {"kind": "dfs", "max_schedules": 1000 if thorough else 120, "preempt": 3 if thorough else 2},
                              "probe": [], "hang_ms": 20000})
     elif pid == "C15":
         for f in ("s_plain", "a_plain", "s_lru2", "a_lru2", "s_fifo3_ttl2", "a_fifo3_ttl2", "s_lfu2", "a_lfu2", "g_alias",
@@ -269,11 +269,11 @@ def run_conc_check(pid, tier, seed, wd):
     def run_job(ij):
         i, job = ij
         job["tag"] = "job%d" % i
-        job.setdefault("max_log", 0 if thorough else 8)
+        job.setdefault("max_log", 40 if thorough else 8)
         jp = os.path.join(wd, "conc_job_%d.json" % i)
         json.dump(job, open(jp, "w"))
         tp = os.path.join(wd, "conc_%d.ndjson" % i)
-        r = harness_json(["conc", "--job", jp, "--out", tp], timeout=1200)
+        r = harness_json(["conc", "--job", jp, "--out", tp], timeout=3000)
         return i, job, jp, tp, r
 
     import concurrent.futures
